@@ -10,7 +10,7 @@
    No branch of the model reads the receiver's old sign, form, accuracy,
    exponent or mantissa: no finding. *)
 From Coq Require Import ZArith.
-From Dec Require Import L3.Decimal L3.Round L3.Arith L3.Convert L3.IndepProofs L3.IndepProofs2.
+From Dec Require Import L3.Decimal L3.Convert L3.Round L3.Arith L3.IndepProofs L3.IndepProofs2.
 Open Scope Z_scope.
 
 Theorem C10b_sub_receiver_independent : forall zx zy z z' x y,
